@@ -194,6 +194,20 @@ type apiState struct {
 	key    string
 	apiPtr reflect.Value
 	tr     *trace
+	// conc: events go to the trace carried by the request's context (one per request), so that
+	// the driver itself shares nothing between concurrently served requests
+	conc bool
+}
+
+type trKey struct{}
+
+func (st *apiState) trFor(r *http.Request) *trace {
+	if st.conc && r != nil {
+		if t, ok := r.Context().Value(trKey{}).(*trace); ok {
+			return t
+		}
+	}
+	return st.tr
 }
 
 var lastAPI *apiState
@@ -226,7 +240,7 @@ func buildAPI(p *Pkg, c *Case) *apiState {
 			if c.NF {
 				fv.Set(reflect.ValueOf(http.Handler(http.HandlerFunc(func(w http.ResponseWriter, r *http.Request) {
 					_, ok := p.SchemaPath(r)
-					st.tr.add("NF(%v)", ok)
+					st.trFor(r).add("NF(%v)", ok)
 					w.WriteHeader(404)
 				}))))
 			}
@@ -239,10 +253,15 @@ func buildAPI(p *Pkg, c *Case) *apiState {
 				fn := reflect.MakeFunc(f.Type, func(args []reflect.Value) []reflect.Value {
 					ms := args[0].Interface().([]string)
 					hs := args[1].Interface().([]string)
-					st.tr.add("CORS(%s;%s)", strings.Join(ms, ","), strings.Join(hs, ","))
+					if !st.conc {
+						st.tr.add("CORS(%s;%s)", strings.Join(ms, ","), strings.Join(hs, ","))
+					}
 					h := http.Handler(http.HandlerFunc(func(w http.ResponseWriter, r *http.Request) {
 						_, ok := p.SchemaPath(r)
-						st.tr.add("CORSH(%v)", ok)
+						if st.conc {
+							st.trFor(r).add("CORS(%s;%s)", strings.Join(ms, ","), strings.Join(hs, ","))
+						}
+						st.trFor(r).add("CORSH(%v)", ok)
 						w.WriteHeader(204)
 					}))
 					return []reflect.Value{reflect.ValueOf(&h).Elem()}
@@ -256,9 +275,9 @@ func buildAPI(p *Pkg, c *Case) *apiState {
 				mws = append(mws, func(next http.Handler) http.Handler {
 					return http.HandlerFunc(func(w http.ResponseWriter, r *http.Request) {
 						sp, ok := p.SchemaPath(r)
-						st.tr.add("M%d>(%s,%v)", k, sp, ok)
+						st.trFor(r).add("M%d>(%s,%v)", k, sp, ok)
 						next.ServeHTTP(w, r)
-						st.tr.add("M%d<", k)
+						st.trFor(r).add("M%d<", k)
 					})
 				})
 			}
@@ -281,7 +300,7 @@ func buildAPI(p *Pkg, c *Case) *apiState {
 						okTok = true
 					}
 				}
-				st.tr.add("A:%s(%s)=%v", name, hx(tok), okTok)
+				st.trFor(r).add("A:%s(%s)=%v", name, hx(tok), okTok)
 				var r2 *http.Request
 				if okTok {
 					r2 = r.WithContext(context.WithValue(r.Context(), ctxTag{}, name+":"+tok))
@@ -293,17 +312,20 @@ func buildAPI(p *Pkg, c *Case) *apiState {
 			ft := f.Type
 			noParse, resp := c.NoParse, c.Resp
 			fv.Set(reflect.MakeFunc(ft, func(args []reflect.Value) []reflect.Value {
-				st.tr.add("H:%s", handlerIdent(ft))
 				req := args[1]
+				var hr *http.Request
 				if httpm := req.MethodByName("HTTP"); httpm.IsValid() {
-					if hr, _ := httpm.Call(nil)[0].Interface().(*http.Request); hr != nil {
-						if tag, ok := hr.Context().Value(ctxTag{}).(string); ok {
-							st.tr.add("C:%s", hx(tag))
-						}
+					hr, _ = httpm.Call(nil)[0].Interface().(*http.Request)
+				}
+				tr := st.trFor(hr)
+				tr.add("H:%s", handlerIdent(ft))
+				if hr != nil {
+					if tag, ok := hr.Context().Value(ctxTag{}).(string); ok {
+						tr.add("C:%s", hx(tag))
 					}
 				}
 				if !noParse {
-					st.tr.add("P:%s", callParse(req))
+					tr.add("P:%s", callParse(req))
 				}
 				return []reflect.Value{makeResponse(p, ft.Out(0), resp)}
 			}))
